@@ -1,3 +1,4 @@
+use smallvec::SmallVec;
 use std::ops::Range;
 
 use super::{
@@ -83,49 +84,110 @@ pub trait RiRefImpl {
 
 		match (self.authority(), other.authority()) {
 			(Some(a), Some(b)) if a == b => (),
-			(Some(_), None) => (),
-			(None, Some(_)) => (),
 			(None, None) => (),
 			_ => {
+				// A relative reference cannot add, remove or change the authority.
 				return unsafe {
 					<Self::RiRefBuf as RiRefBufImpl>::new_unchecked(self.as_bytes().to_vec())
-				}
+				};
 			}
 		}
 
-		let mut self_segments = self.path().normalized_segments().peekable();
-		let mut base_segments = other
+		if self.path().is_absolute() != other.path().is_absolute() {
+			if self.path().is_absolute() {
+				// Absolute-path reference.
+				result.set_path(self.path());
+				result.set_query(self.query());
+				result.set_fragment(self.fragment());
+				return result;
+			} else {
+				// A relative reference resolved against an absolute base
+				// path is always absolute.
+				return unsafe {
+					<Self::RiRefBuf as RiRefBufImpl>::new_unchecked(self.as_bytes().to_vec())
+				};
+			}
+		}
+
+		let self_segments: SmallVec<[_; 16]> = self.path().normalized_segments().collect();
+		let other_segments: SmallVec<[_; 16]> = other.path().normalized_segments().collect();
+
+		let same_path = self_segments.len() == other_segments.len()
+			&& self_segments
+				.iter()
+				.zip(&other_segments)
+				.all(|(a, b)| a.as_pct_str().bytes().eq(b.as_pct_str().bytes()));
+
+		if same_path
+			&& (self.query().is_some() || self.fragment().is_some())
+			&& (self.query().is_some() || other.query().is_none())
+		{
+			// Same-document reference: the path (and, if we have none, the
+			// query) is taken from the base.
+			result.set_query(self.query());
+			result.set_fragment(self.fragment());
+			return result;
+		}
+
+		if self.path().as_bytes().is_empty() {
+			// Only the base path itself can resolve to an empty path.
+			if same_path && (self.query().is_some() || other.query().is_none()) {
+				result.set_query(self.query());
+				result.set_fragment(self.fragment());
+				return result;
+			} else {
+				return unsafe {
+					<Self::RiRefBuf as RiRefBufImpl>::new_unchecked(self.as_bytes().to_vec())
+				};
+			}
+		}
+
+		// The last segment is the "file": only the directories are compared.
+		// The directory of the base is what a reference is merged with
+		// (RFC 3986, section 5.2.3): its path without its last segment.
+		let self_dir = &self_segments[..self_segments.len().saturating_sub(1)];
+		let base_dir: SmallVec<[_; 16]> = other
 			.path()
 			.parent_or_empty()
 			.normalized_segments()
-			.peekable();
+			.collect();
 
-		if self.path().is_absolute() == other.path().is_absolute() {
-			loop {
-				match (self_segments.peek(), base_segments.peek()) {
-					(Some(a), Some(b)) if a.as_pct_str().bytes().eq(b.as_pct_str().bytes()) => {
-						base_segments.next();
-						self_segments.next();
-					}
-					_ => break,
-				}
-			}
+		let mut common = 0;
+		while common < self_dir.len()
+			&& common < base_dir.len()
+			&& self_dir[common]
+				.as_pct_str()
+				.bytes()
+				.eq(base_dir[common].as_pct_str().bytes())
+		{
+			common += 1
 		}
 
-		for _segment in base_segments {
+		if base_dir[common..]
+			.iter()
+			.any(|s| s.as_bytes() == super::path::PARENT_SEGMENT)
+		{
+			// There is no way up from a `..` the base path keeps.
+			return unsafe {
+				<Self::RiRefBuf as RiRefBufImpl>::new_unchecked(self.as_bytes().to_vec())
+			};
+		}
+
+		for _segment in &base_dir[common..] {
 			result
 				.path_mut()
 				.push(<<Self::Path as PathImpl>::Segment as SegmentImpl>::PARENT);
 		}
 
-		for segment in self_segments {
-			result.path_mut().push(segment)
+		for segment in &self_segments[common..] {
+			result.path_mut().push(*segment)
 		}
 
-		if (self.query().is_some() || self.fragment().is_some())
-			&& Some(result.path().as_bytes()) == other.path().last().map(|s| s.as_bytes())
-		{
-			result.path_mut().clear()
+		if result.path().as_bytes().is_empty() {
+			// An empty path would be a same-document reference.
+			result.path_mut().push(unsafe {
+				<<Self::Path as PathImpl>::Segment as SegmentImpl>::new_unchecked(b".")
+			})
 		}
 
 		result.set_query(self.query());
